@@ -23,7 +23,7 @@ import (
 // ---- read-your-writes through the follower API ------------------------------------------------------
 
 type WOp struct {
-	Kind string `json:"kind"` // put | delrange | txn | txn-empty-branch | restart-follower
+	Kind string `json:"kind"` // put | delrange | txn | txn-empty-branch | restart-follower | reset-table
 	K    []byte `json:"k"`
 	V    []byte `json:"v,omitempty"`
 	End  []byte `json:"end,omitempty"`
@@ -41,7 +41,11 @@ func genRYW(t *rapid.T) RYWCase {
 	n := rapid.IntRange(1, 8).Draw(t, "n")
 	for i := 0; i < n; i++ {
 		op := WOp{K: rapid.SampledFrom(rywKeys).Draw(t, "k"), V: []byte(fmt.Sprintf("v%d", i))}
-		switch rapid.IntRange(0, 6).Draw(t, "kind") {
+		switch rapid.IntRange(0, 7).Draw(t, "kind") {
+		case 7:
+			// an operator resets the follower's copy of the table (maintenance API): its recorded leader index goes back to 0 and the
+			// worker replicates the table again from the start
+			op.Kind = "reset-table"
 		case 6:
 			// the follower node restarts (its tables are re-opened) between two writes
 			op.Kind = "restart-follower"
@@ -117,8 +121,22 @@ func runRYW(c RYWCase, o *vt.Obs) *vt.Failure {
 
 	m := model.New()
 	emptyBranch := 0
-	restarts := 0
+	restarts, resets := 0, 0
 	for i, op := range c.Ops {
+		if op.Kind == "reset-table" {
+			tb, err := p.F.E.GetTable(name)
+			if err == nil {
+				ctx, cancel := context.WithTimeout(context.Background(), 15*time.Second)
+				err = tb.Reset(ctx)
+				cancel()
+			}
+			if err != nil {
+				vt.Inconclusive("C11 table reset: " + err.Error())
+				return nil
+			}
+			resets++
+			continue
+		}
 		if op.Kind == "restart-follower" {
 			stopPoller()
 			rerr := p.RestartFollower()
@@ -206,6 +224,9 @@ func runRYW(c RYWCase, o *vt.Obs) *vt.Failure {
 	}
 	if restarts > 0 {
 		o.Label("follower-restart-between-forwarded-writes")
+	}
+	if resets > 0 {
+		o.Label("follower-table-reset-between-forwarded-writes")
 	}
 	o.NonTrivial = emptyBranch > 0 || len(c.Ops) >= 3
 	o.Describe = func() string { return fmt.Sprintf("%+v", c) }
